@@ -80,8 +80,8 @@ def run_stuckall(case, stats):
         if k % case["nblocks"] != case["block"]:
             continue
         for after in (0, 10):
-            for mode in ("zeros", "timeout"):
-                state = {"n": 0, "stuck": False, "armed": False}
+            for mode in ("zeros", "timeout", "slow"):
+                state = {"n": 0, "stuck": False, "armed": False, "sess": None}
 
                 def cap(call_no, n, r_, state=state, k=k, after=after, mode=mode):
                     if not state["armed"]:
@@ -91,6 +91,10 @@ def run_stuckall(case, stats):
                             raise transports.TimeoutError_("the link is congested (deliberate)")
                         return 0
                     state["n"] += 1
+                    if state["n"] - 1 == k and mode == "slow":
+                        # this one transfer is slow: it takes longer than read_timeout_s and moves only `after` bytes; the link is fine again afterwards
+                        state["sess"].clock.advance(10.5)
+                        return min(after, n)
                     if state["n"] - 1 == k:
                         state["stuck"] = True
                         if after == 0 and mode == "timeout":
@@ -99,16 +103,17 @@ def run_stuckall(case, stats):
                     return n
                 sess = gen.make_session(case["impl"], dims, "c15stuck", writecap=cap, budget=400000)
                 state["armed"] = True
+                state["sess"] = sess
                 r1 = scen.Runner(sess, sc)
                 try:
                     res = []
-                    where = "%s: the link takes %d bytes of write call #%d (of %d) and then %s" % (case["impl"], after, k, nwrites, "nothing more" if mode == "zeros" else "raises its timeout error")
+                    where = "%s: the link takes %d bytes of write call #%d (of %d) and then %s" % (case["impl"], after, k, nwrites, {"zeros": "nothing more", "timeout": "raises its timeout error", "slow": "(10.5 s later) works normally again"}[mode])
                     for i, step in enumerate(sc["steps"]):
                         o, v = r1.run_step(i, step)
                         res.append((step, o, v))
                         if not o.ok:
                             break
-                        if sess.sim.parser.pending():
+                        if sess.sim.parser.pending() or sess.sim.framing_error is not None:
                             # the call is over and reported success: nothing of what it sent may be left hanging in the middle of a message
                             viol.append({"mechanism": "truncated-message-behind-normal-return", "detail": "%s: %s returned normally while the peer holds %d bytes of an incomplete message" % (
                                 where, step["op"], sess.sim.parser.pending())})
@@ -118,11 +123,11 @@ def run_stuckall(case, stats):
                     all_ok = all(o.ok for (_, o, _) in res) and len(res) == len(sc["steps"])
                     log1 = [pk.key() for (_, pk) in sess.sim.host_log]
                     if all_ok:
-                        # (only possible if the write that got stuck was complete with `after` bytes, e.g. a 0-byte tail)
-                        if sess.sim.parser.pending() or log1 != log0:
+                        # (only possible if the write that got stuck was complete with `after` bytes, e.g. a 0-byte tail; or, in mode slow, if the rest was sent in time)
+                        if sess.sim.parser.pending() or log1 != log0 or sess.sim.framing_error is not None:
                             viol.append({"mechanism": "stuck-write-ignored", "detail": "%s: every call returned normally, but the peer holds %d bytes of an incomplete message and %d of %d messages" % (
                                 where, sess.sim.parser.pending(), len(log1), len(log0))})
-                    elif log1 != log0[:len(log1)]:
+                    elif mode != "slow" and log1 != log0[:len(log1)]:     # (after a slow transfer the link works again: what a failed call sends while cleaning up is its own business)
                         viol.append({"mechanism": "messages-differ", "detail": "%s: the complete messages at the peer are not a prefix of the full-write run" % where})
                     stats["messages_compared"] += len(log1)
                 finally:
